@@ -964,10 +964,11 @@ def parse_qsl(qs, keep_blank_values=True, encoding=DEFAULT_ENCODING):
     for pair in pairs:
         if not pair:
             continue
-        key, _, value = pair.partition('=')
+        key, sep, value = pair.partition('=')
         if not value:
             if keep_blank_values:
-                value = None
+                # 'k' carries no value at all, 'k=' an empty one
+                value = '' if sep else None
             else:
                 continue
         key = unquote(key.replace('+', ' '))
